@@ -264,7 +264,7 @@ def generate(rng, tier):
     cases.append(mk('crat', "cx.zero", [], "crat-grid-unary"))
     cases.append(mk('crat', "cx.one", [], "crat-grid-unary"))
     g = rng.fork("crat")
-    N = 25 if quick else 300
+    N = 25 if quick else 200
     for op in ("add", "sub", "mul", "div"):
         for t in range(N):
             z = zq(g); w = zq_nz(g) if op == "div" else zq(g)
@@ -289,7 +289,7 @@ def generate(rng, tier):
             cases.append(mk('crat', "cx.cmp", [zq(g), zq(g)], "crat-order-pairs"))
     # ---------------- float tier: Complex<f64> vs primitive floats
     g = rng.fork("cplx")
-    M = 40 if quick else 900
+    M = 40 if quick else 500
     for op in ("add", "sub", "mul", "div"):
         for t in range(M):
             z = zf(g); w = zf_nz(g) if op == "div" else zf(g)
